@@ -380,6 +380,7 @@ class Ctx:
         self.pending = []
         self.uf_records = []
         self._bool_decided = {}
+        self._names_seen = set()
         self._bool_in_pre = set()
         if mode == "symbolic":
             self.solver = z3.Solver()
@@ -394,8 +395,14 @@ class Ctx:
                     raise VkError("concrete run lacks a value for input %s" % name)
                 lo, hi = sample
                 self.values[name] = float(self.rng.uniform(lo, hi))
+            if name in self._names_seen:
+                raise VkError("duplicate input name %r (two inputs would be aliased)" % name)
+            self._names_seen.add(name)
             self.input_order.append(name)
             return float(self.values[name])
+        if name in self._names_seen:
+            raise VkError("duplicate input name %r (two inputs would be aliased)" % name)
+        self._names_seen.add(name)
         v = z3.Real(name)
         self.inputs[name] = v
         self.input_order.append(name)
